@@ -471,15 +471,23 @@ func (s *Sched) caseReady(self *Thread, c chanCase) bool {
 	if c.ch == nil {
 		return false
 	}
+	// rendezvous with a pending partner only exists on unbuffered channels; on a buffered channel a
+	// partner that has not run yet has simply not touched the buffer
 	if c.send {
 		if c.ch.closed || len(c.ch.buf) < c.ch.cap {
 			return true
+		}
+		if c.ch.cap > 0 {
+			return false
 		}
 		p, _ := s.pendingPartner(self, c.ch, false)
 		return p != nil
 	}
 	if c.ch.closed || len(c.ch.buf) > 0 {
 		return true
+	}
+	if c.ch.cap > 0 {
+		return false
 	}
 	p, _ := s.pendingPartner(self, c.ch, true)
 	return p != nil
@@ -544,7 +552,7 @@ func (in *Interp) chanOp(cases []chanCase, blocking bool) (int, value, bool) {
 		if ch.closed {
 			in.rtPanic("send on closed channel")
 		}
-		if p, pi := s.pendingPartner(t, ch, false); p != nil && len(ch.buf) == 0 {
+		if p, pi := s.pendingPartner(t, ch, false); p != nil && ch.cap == 0 {
 			p.pending.completed = pi
 			p.pending.recvVal = copyVal(c.val)
 			p.pending.recvOk = true
@@ -562,7 +570,7 @@ func (in *Interp) chanOp(cases []chanCase, blocking bool) (int, value, bool) {
 		// a sender blocked on a full buffer becomes ready by itself
 		return k, v, true
 	}
-	if p, pi := s.pendingPartner(t, ch, true); p != nil {
+	if p, pi := s.pendingPartner(t, ch, true); p != nil && ch.cap == 0 {
 		v := copyVal(p.pending.cases[pi].val)
 		p.pending.completed = pi
 		return k, v, true
